@@ -30,6 +30,13 @@ class FakeSocket:
         self.closed = False
         self.connected_to = None
         self.bound = None
+        self.ep = None  # the target's endpoint for this TCP connection
+        self.rx = bytearray()  # bytes the target has sent on this connection, not yet received by the client
+        self.rx_delivered = 0  # stream offset of the next byte the client will receive
+        self.tx_accepted = 0
+        self.tx_pending = b""
+        self.peer_gone = False
+        self.pending_send_err = False
         self.world.sockets.append(self)
 
     # --- options
@@ -144,7 +151,7 @@ def install():
 
 
 class World:
-    """One client endpoint + one target + the network in between.
+    """One client process + one target + the network in between.
 
     faults: dict io_index -> kind, kinds:
        'send_err'      the send call raises OSError, nothing delivered
@@ -152,7 +159,7 @@ class World:
        'send_zero'     the send call returns 0
        'recv_err'      the recv call raises OSError
        'recv_close'    the peer has vanished: this and later recv calls return b''
-       'recv_trunc'    the recv call returns one byte less than available, then peer closes
+       'recv_trunc'    the recv call returns one byte less than available, then the peer is gone
     io_index counts send+recv calls (TCP and UDP) from the last `arm()`.
     """
 
@@ -168,27 +175,24 @@ class World:
         self.cutset = cutset  # None: every stream offset may be a chunk boundary; else only these offsets
         self.send_cutset = send_cutset
         self.rx_end = rx_end  # what an empty receive buffer means: 'timeout' | 'close' | 'error'
-        self.rx_delivered = 0  # stream offset of the next byte the client will receive
-        self.tx_accepted = 0
         self.refuse_tcp = refuse_tcp
         self.unresolvable = unresolvable
         self.clock = clock
         self.local_ips = list(local_ips)
         self.sockets = []
-        self.rx = bytearray()  # bytes the target has sent, not yet received by the client
         self.dgrams = []
-        self.peer_gone = False
         self.io = 0  # I/O index since arm()
         self.io_total = 0
         self.armed = False
         self.budget_hit = False
         self.fault_fired = []
         self.send_calls = []  # bytes objects, one per OS-level send call (what was *offered*)
+        self.messages = []  # what was offered at message starts (= one entry per Socket.send call of the library)
+        self.tx_anomalies = []
         self.accepted = bytearray()  # bytes the network accepted, in order
         self.tcp_connects = 0
-        self.tcp_open = False
+        self.last_sock = None
         self._rand = 0
-        self._pending_send_err = False
         self._prev = None
 
     # context manager: make this the current world
@@ -212,6 +216,15 @@ class World:
     def disarm(self):
         self.armed = False
         self.faults = {}
+
+    @property
+    def tcp_open(self):
+        return any(s.ep is not None and not s.closed for s in self.sockets)
+
+    @property
+    def rx(self):
+        """Receive buffer of the most recently connected socket (single-connection scenarios)."""
+        return self.last_sock.rx
 
     # --- helpers
     def _tick(self):
@@ -244,21 +257,19 @@ class World:
         if self.refuse_tcp:
             raise ConnectionRefusedError(111, "Connection refused")
         self.tcp_connects += 1
-        self.tcp_open = True
-        self.peer_gone = False
-        self.rx.clear()
         sock.connected_to = addr
-        self.target.tcp_open(addr)
+        sock.ep = self.target.accept(addr)
+        self.last_sock = sock
 
     def _send(self, sock, data):
         if sock.type == _socket.SOCK_DGRAM:
             raise OSError("send on datagram socket")
         fault = self._tick()
         self.send_calls.append(data)
-        if sock.closed or not self.tcp_open:
+        if sock.closed or sock.ep is None:
             raise OSError(9, "Bad file descriptor")
-        if self._pending_send_err:
-            self._pending_send_err = False
+        if sock.pending_send_err:
+            sock.pending_send_err = False
             raise ConnectionResetError(104, "Connection reset by peer")
         if fault == "send_err":
             raise BrokenPipeError(32, "Broken pipe")
@@ -267,24 +278,29 @@ class World:
         n = len(data)
         if fault == "send_partial" and n > 1:
             n = 1
-            self._pending_send_err = True
+            sock.pending_send_err = True
         elif self.send_choices and len(data) > 1:
             # default: everything accepted; alternatives: fewer bytes accepted (a partial send)
-            cands = [k for k in range(1, len(data)) if self.send_cutset is None or (self.tx_accepted + k) in self.send_cutset]
+            cands = [k for k in range(1, len(data)) if self.send_cutset is None or (sock.tx_accepted + k) in self.send_cutset]
             if cands:
-                c = self.ctx.choose("send@%d" % self.tx_accepted, len(cands) + 1, 0)
+                c = self.ctx.choose("send@%d" % sock.tx_accepted, len(cands) + 1, 0)
                 if c:
                     n = cands[c - 1]
-        if self.peer_gone:
+        if sock.peer_gone or sock.ep.closed_by_peer:
             raise BrokenPipeError(32, "Broken pipe")
+        # message boundaries: a send call made when nothing is pending starts a new message
+        if sock.tx_pending:
+            if data != sock.tx_pending:
+                self.tx_anomalies.append(("resend-mismatch", len(sock.tx_pending), len(data)))
+        else:
+            self.messages.append(data)
+        sock.tx_pending = data[n:]
         chunk = data[:n]
-        self.tx_accepted += n
+        sock.tx_accepted += n
         self.accepted += chunk
-        reply = self.target.feed(chunk)
+        reply = sock.ep.feed(chunk)
         if reply:
-            self.rx += reply
-        if getattr(self.target, "tcp_closed_by_peer", False):
-            pass  # remaining rx can still be read; afterwards recv returns b''
+            sock.rx += reply
         return n
 
     def _recv(self, sock, bufsize):
@@ -295,47 +311,46 @@ class World:
             if self.dgrams:
                 return self.dgrams.pop(0)[:bufsize]
             raise _socket.timeout("timed out")
-        if sock.closed or not self.tcp_open:
+        if sock.closed or sock.ep is None:
             raise OSError(9, "Bad file descriptor")
         if fault == "recv_err":
             raise ConnectionResetError(104, "Connection reset by peer")
         if fault == "recv_close":
-            self.peer_gone = True
-            self.rx.clear()
-        if self.peer_gone and not self.rx:
+            sock.peer_gone = True
+            sock.rx.clear()
+        if sock.peer_gone and not sock.rx:
             return b""
-        if not self.rx:
-            if getattr(self.target, "tcp_closed_by_peer", False) or self.rx_end == "close":
+        if not sock.rx:
+            if sock.ep.closed_by_peer or self.rx_end == "close":
                 return b""
             if self.rx_end == "error":
                 raise ConnectionResetError(104, "Connection reset by peer")
             raise _socket.timeout("timed out")
-        avail = min(bufsize, len(self.rx))
+        avail = min(bufsize, len(sock.rx))
         n = avail
         if fault == "recv_trunc":
             n = max(avail - 1, 0)
-            self.peer_gone = True
-            out = bytes(self.rx[:n])
-            self.rx.clear()
+            sock.peer_gone = True
+            out = bytes(sock.rx[:n])
+            sock.rx.clear()
             return out
         if self.chunk_choices and avail > 1:
-            cands = [k for k in range(1, avail) if self.cutset is None or (self.rx_delivered + k) in self.cutset]
+            cands = [k for k in range(1, avail) if self.cutset is None or (sock.rx_delivered + k) in self.cutset]
             if cands:
-                c = self.ctx.choose("recv@%d" % self.rx_delivered, len(cands) + 1, 0)
+                c = self.ctx.choose("recv@%d" % sock.rx_delivered, len(cands) + 1, 0)
                 if c:
                     n = cands[c - 1]
-        out = bytes(self.rx[:n])
-        del self.rx[:n]
-        self.rx_delivered += n
+        out = bytes(sock.rx[:n])
+        del sock.rx[:n]
+        sock.rx_delivered += n
         return out
 
     def _close(self, sock):
         if sock.closed:
             return
         sock.closed = True
-        if sock.type != _socket.SOCK_DGRAM and sock.connected_to is not None:
-            self.tcp_open = False
-            self.target.tcp_close()
+        if sock.type != _socket.SOCK_DGRAM and sock.ep is not None:
+            sock.ep.close()
 
     # --- UDP
     def _sendto(self, sock, data, addr):
